@@ -73,7 +73,7 @@ class Ctx:
             return
         try:  # triage aid only (flaky failures would otherwise leave no trace); never read back by a check
             with open(os.path.join(WORK, "failures-seen.log"), "a") as fh:
-                fh.write("=== %s %s seed=%s shard=%s\n%s\n%s\n" % (self.prop, sig, self.seed, self.shard, json.dumps(case)[:2000], detail[:30000]))
+                fh.write("=== %s %s seed=%s shard=%s\n%s\n%s\n" % (self.prop, sig, self.seed, self.shard, json.dumps(case)[:200000], detail[:30000]))
         except OSError:
             pass
         raise Failure(sig, case, detail)
